@@ -34,21 +34,32 @@ func coll(prop string) *evid.Collector {
 func TestMain(m *testing.M) {
 	loadKnown()
 	code := m.Run()
-	if out := os.Getenv("VERIF_SHARD_OUT"); out != "" {
-		collMu.Lock()
-		for prop, c := range colls {
-			p := out
-			if len(colls) > 1 {
-				p = out + "." + prop
-			}
-			if err := c.Flush(p); err != nil {
-				fmt.Fprintln(os.Stderr, "flush evidence:", err)
-				code = 2
-			}
-		}
-		collMu.Unlock()
+	if !flushEvidence() {
+		code = 2
 	}
 	os.Exit(code)
+}
+
+// flushEvidence writes what the collectors hold to $VERIF_SHARD_OUT.
+func flushEvidence() bool {
+	out := os.Getenv("VERIF_SHARD_OUT")
+	if out == "" {
+		return true
+	}
+	ok := true
+	collMu.Lock()
+	defer collMu.Unlock()
+	for prop, c := range colls {
+		p := out
+		if len(colls) > 1 {
+			p = out + "." + prop
+		}
+		if err := c.Flush(p); err != nil {
+			fmt.Fprintln(os.Stderr, "flush evidence:", err)
+			ok = false
+		}
+	}
+	return ok
 }
 
 // tier is "quick" or "thorough".
@@ -148,6 +159,10 @@ func violate(t fataler, prop, sig, msg string, cs any) {
 	}
 	p := saveReplay(prop, msg, cs)
 	c.Violation(msg, p)
+	// Put the evidence on disk now: shrinking a case that fails by not
+	// coming back can outlast the time limit of the test process, and a
+	// process that is killed writes nothing.
+	flushEvidence()
 	t.Fatalf("VIOLATION %s [%s]: %s", prop, sig, msg)
 }
 
